@@ -148,14 +148,19 @@ def run_verus(unit, spec, pid, bdir, ex):
         # same on-demand extraction as for the Kani crates (retry while it finds something new)
         msgs = ' '.join(json.loads(l).get('message', '') for l in err.splitlines() if l.strip().startswith('{') and '"message"' in l
                         and _is_json(l))
-        if rounds < 4 and not to and ('"encountered-vir-error": true' in out or '"encountered-error": true' in out) and auto_extract(unit, spec, ex, msgs):
+        if rounds < 4 and not to and ('"encountered-vir-error": true' in out or '"encountered-error": true' in out):
+            # the Extraction object is shared with the unit's Kani run (which may already have found the same
+            # helper): re-render and retry whenever the rendered text changes
+            auto_extract(unit, spec, ex, msgs)
             rounds += 1
             try:
-                text = _render(unit, spec['template'], ex)
+                text2 = _render(unit, spec['template'], ex)
             except (rsx.LostAnchor, rsx.Unsupported):
                 break
-            open(f, 'w').write(text)
-            continue
+            if text2 != text:
+                text = text2
+                open(f, 'w').write(text)
+                continue
         break
     info = {'wall_s': round(wall, 2), 'smt_s': 0, 'file': f}
     try:
